@@ -438,6 +438,10 @@ def run(ctx):
         # the index-wise published formula evaluated by the Lean side (theorem es_eq_formula)
         reqs.append("esformula" + req[2:])
         impl.append(got)
+        # round 4: the two doubles bit for bit (model: correctly rounded sqrt and division)
+        reqs.append("esf64" + req[2:])
+        impl.append("raise:" + type(r).__name__ if isinstance(r, Exception)
+                    else ",".join(exact_f64(v) for v in r))
         meta.append(("es", x, y, ts1, ts2, tm, lag))
         ctx.case(req, nx >= 3 and ny >= 3,
                  {"call": "event_synchronization", "x": x, "y": y, "ts1": ts1, "ts2": ts2,
@@ -725,6 +729,10 @@ def run(ctx):
             got = "raise" if isinstance(M, Exception) else enc_mat(M, lambda r: ",".join(canon_sq(v) for v in r))
             reqs.append(req)
             impl.append(got)
+            # round 4: the float64 matrix bit for bit (sum / difference / mean rounded once)
+            reqs.append("esmatf64" + req[5:])
+            impl.append("raise" if isinstance(M, Exception)
+                        else enc_mat(M, lambda r: ",".join(exact_f64(v) for v in r)))
             ctx.case(req, int(E.sum(axis=0).min()) >= 3)
             ctx.count(f"matrix:ES:{s}")
             rep = {"call": "event_series_analysis", "method": "ES", "symmetrization": s,
@@ -842,7 +850,11 @@ def run(ctx):
         if rng.random() < 0.15:
             data[:, rng.randrange(N)] = data[0, 0]        # a constant variable
         # caller data in both float widths, or as integers
-        ddt = rng.choice([float, float, np.float32] + ([] if half else [np.int64]))
+        ddt = rng.choice([float, float, np.float32] + ([] if half else
+                                                       [np.int64, np.int64, np.int32, np.int16, np.int8,
+                                                        np.uint8, np.uint16]))
+        if np.dtype(ddt).kind == "u":
+            data = data + span                             # unsigned observables: counts
         data = data.astype(ddt)
         if rng.random() < 0.2:
             data = np.asfortranarray(data)
@@ -861,7 +873,7 @@ def run(ctx):
                           if rng.random() < 0.93 else rng.choice([-0.25, 1.5, -2.0 ** -20, 1 + 2.0 ** -20]))
             else:
                 col = sorted(set(float(v) for v in data[:, i]))
-                vs.append(rng.choice(col) + rng.choice([0, 0, 0.25, -0.25])
+                vs.append(rng.choice(col) + rng.choice([0, 0, 0.25, -0.25, 0.5, -0.5, 0.75, -0.75])
                           if rng.random() < 0.9 else rng.choice([col[0] - 1, col[-1] + 1]))
         if not per_var:
             vs = [vs[0]] * N
@@ -907,6 +919,10 @@ def run(ctx):
             ",".join(t[0] if give_t else "none" for t in tys))
         got = "raise:" + type(r).__name__ if isinstance(r, Exception) else enc_mat(r.tolist())
         reqs.append(req)
+        impl.append(got)
+        # round 4: the same call answered through NumPy's own quantile algorithm (npQuantile /
+        # npMedian as regenerated from the installed NumPy) and the float64 threshold array
+        reqs.append("mkevnp" + req[4:])
         impl.append(got)
         nontriv = T >= 2 and all(len(set(data[:, i])) > 1 for i in range(N))
         ctx.case(req, nontriv, {"call": "make_event_matrix", "data": data.tolist(),
